@@ -54,6 +54,15 @@ fn gen_vec(rng: &mut Rng) -> (Vec<String>, bool, bool) {
     (v, wf, meta > 0)
 }
 
+/// tokens of one alias value (witness support)
+pub fn alias_eval(value: &str) -> String {
+    let v = value.to_string();
+    match guarded(move || parse_alias_tokens(&v)) {
+        Err(p) => json!({"panic": p}).to_string(),
+        Ok(t) => json!({"tokens": t}).to_string(),
+    }
+}
+
 pub fn run(seed: u64, n: usize, extra: &[String]) -> String {
     let mut rng = Rng::new(seed);
     let repo = extra.first().and_then(|p| find_repository_in_path(p).ok());
@@ -109,7 +118,40 @@ pub fn run(seed: u64, n: usize, extra: &[String]) -> String {
         }
         *counters.entry("alias_values").or_insert(0) += 1;
     }
-    json!({"cases": n, "violations": viol, "distinct": sigs.len(), "counters": counters, "differing": differing, "classified": classified, "aliases": aliases}).to_string()
+    // alias tokenizer on structured values (words, quoted segments, backslashes): the tokens are emitted and compared with git's own
+    // split of the same value (GIT_TRACE alias expansion) by the python side
+    let mut alias_tokens: Vec<serde_json::Value> = Vec::new();
+    let words: Vec<&str> = vec!["--format=%s", "-3", "--grep=v1", "a b", "x", "\\", "\\.", "\\ ", "\\'", "\\\"", "é", "$HOME", "#c", "--", "-n", "1"];
+    let wrote_off: Vec<String> = extra.iter().skip(2).cloned().collect();
+    let no_empty = wrote_off.iter().any(|f| f == "alias_empty_quoted_token");
+    let no_trailing_bs = wrote_off.iter().any(|f| f == "alias_trailing_backslash");
+    for _ in 0..emit {
+        let mut s = String::from("log");
+        for _ in 0..(1 + rng.below(4)) {
+            s.push(' ');
+            for _ in 0..(1 + rng.below(3)) {
+                let wd = *rng.pick(&words[..]);
+                match rng.below(4) {
+                    0 => { s.push('\''); s.push_str(&wd.replace('\'', "")); s.push('\''); }
+                    1 => { s.push('"'); s.push_str(&wd.replace('"', "")); s.push('"'); }
+                    2 if !no_empty && rng.chance(1, 6) => { s.push_str("''"); }
+                    _ => s.push_str(&wd.replace(' ', "")),
+                }
+            }
+        }
+        if rng.chance(1, 12) { s.push_str(" 'unclosed"); }
+        if no_trailing_bs {
+            // finding D49: a value ending in an unescaped backslash
+            let trailing = s.chars().rev().take_while(|c| *c == '\\').count();
+            if trailing % 2 == 1 { s.push('x'); }
+        }
+        let s2 = s.clone();
+        match guarded(move || parse_alias_tokens(&s2)) {
+            Err(p) => viol.push(json!({"kind": "C18/panic-alias-tokens", "panic": p, "value": s})),
+            Ok(t) => alias_tokens.push(json!({"value": s, "tokens": t})),
+        }
+    }
+    json!({"cases": n, "violations": viol, "distinct": sigs.len(), "counters": counters, "differing": differing, "classified": classified, "aliases": aliases, "alias_tokens": alias_tokens}).to_string()
 }
 
 use std::panic;
